@@ -867,7 +867,7 @@ def run(tier: str, seed: int) -> Result:
         depth, bound = (4, 1) if q else (6, 2)
         if rec:
             depth -= 1
-        left = max(5.0, (t_end - time.monotonic()) / (len(cfgs) - i))
+        left = max(5.0, (t_end - time.monotonic()) / min(3, len(cfgs) - i))  # most configurations finish far below their share: a hungry one may take a third of what is left
         st = explore_parallel(factory, (sd, False, rec), depth=depth, bound=bound, budget_s=left, split_depth=1)
         per.append({"seed": list(sd), "stop_callback_reconnects_immediately": rec, "depth_after_seed": depth, "deviation_bound": bound, "executions": st.executions, "states": st.states,
                     "transitions": st.transitions, "time_capped": st.time_capped})
